@@ -10,6 +10,39 @@ import random
 from . import core, syntax, progs
 
 
+def group_and_judge(check, family, res):
+    by = {}
+    for m, t, r in res:
+        check.count()
+        check.distinct((family, tuple(m["used"]), m["i"], m["layout"], m["ver"]))
+        by.setdefault((m["i"], m["ver"]), []).append((m, t, r))
+    for i, group in by.items():
+        base = [g for g in group if g[0]["layout"] == "none"][0]
+        if base[2].get("panic") or base[2].get("hang") or base[2].get("crash") or base[2].get("nerr", 1) > 0:
+            continue        # C01 / C03
+        for m, t, r in group:
+            if m is base[0]:
+                continue
+            if r.get("panic") or r.get("hang") or r.get("crash"):
+                continue
+            bad = None
+            if r.get("nerr", 1) > 0 or not r.get("root"):
+                bad = "trivia-makes-program-invalid"
+            elif r.get("sfp") != base[2].get("sfp"):
+                bad = "trivia-changes-structure"
+            if bad:
+                sig = {"class": bad, "recipe": m["layout"], "msg": ((r.get("errs") or [{}])[0].get("msg") or "")[:50]}
+                if "stmt+halt" in m["used"]:
+                    sig["construct"] = "halt-compiler"
+                    low = t["src"].lower()
+                    a = low.find("__halt_compiler") + len("__halt_compiler")
+                    b = t["src"].find(syntax.HALT_PAYLOAD.decode("latin-1"))
+                    sig["comment"] = any(c in t["src"][a:b] for c in ("/*", "//", "#"))
+                check.violation(sig, {"minimal": base[1]["src"], "rendered": t["src"], "ver": m["ver"], "errors": r.get("errs"),
+                                      "variants": m["used"]})
+    return by
+
+
 def run(tier):
     check = core.Check("C08", tier)
     rng = random.Random(core.seed())
@@ -22,29 +55,11 @@ def run(tier):
         if tier == "thorough":
             pass
         res = progs.run_programs(check, wp, family, behs, table, core.seed(), layouts, progs.VERS[family][:1])
-        by = {}
-        for m, t, r in res:
-            check.count()
-            check.distinct((family, m["i"], m["layout"]))
-            by.setdefault(m["i"], []).append((m, t, r))
-        for i, group in by.items():
-            base = [g for g in group if g[0]["layout"] == "none"][0]
-            if base[2].get("panic") or base[2].get("hang") or base[2].get("crash") or base[2].get("nerr", 1) > 0:
-                continue        # C01 / C03
-            for m, t, r in group:
-                if m is base[0]:
-                    continue
-                if r.get("panic") or r.get("hang") or r.get("crash"):
-                    continue
-                bad = None
-                if r.get("nerr", 1) > 0 or not r.get("root"):
-                    bad = "trivia-makes-program-invalid"
-                elif r.get("sfp") != base[2].get("sfp"):
-                    bad = "trivia-changes-structure"
-                if bad:
-                    check.violation({"class": bad, "recipe": m["layout"], "msg": ((r.get("errs") or [{}])[0].get("msg") or "")[:50]},
-                                    {"minimal": base[1]["src"], "rendered": t["src"], "ver": m["ver"], "errors": r.get("errs"),
-                                     "variants": m["used"]})
+        by = group_and_judge(check, family, res)
+        # programs ending in __halt_compiler ( ) ;  + raw data
+        table2, behs2 = syntax.generate(check, family, rootcat="toplast", rootmax=1, num=30 if tier == "quick" else 200, seed=core.seed() + 9, depth=2)
+        res2 = progs.run_programs(check, wp, family, behs2, table2, core.seed(), layouts, progs.VERS[family][:2])
+        group_and_judge(check, family, res2)
         if family == "7":
             g = by[sorted(by)[len(by) // 2]]
             check.sample({"direction": "spec->impl", "minimal": g[0][1]["src"], "one_rendering": g[-1][1]["src"]})
